@@ -135,9 +135,7 @@ Proof.
 Qed.
 
 Lemma nonvacuous_example :
-  safe cb [Some (Vec empty)]
-    [OConjRange 0 0 1057; OPop 1; OPopN 2 1000; OSub 1 30 70; OSub 4 1 5; OAssoc 5 4 (AVal 9); OIter 6; OIter 1]
-  /\ nth 6 (run (m_apply cb false) [Some (Vec empty)]
+  nth 6 (run (m_apply cb) [Some (Vec empty)]
     [OConjRange 0 0 1057; OPop 1; OPopN 2 1000; OSub 1 30 70; OSub 4 1 5; OAssoc 5 4 (AVal 9); OIter 6; OIter 1]) XMissing
      = XRead [AVal 31; AVal 32; AVal 33; AVal 34; AVal 9].
-Proof. vm_compute. repeat split; discriminate. Qed.
+Proof. vm_compute. reflexivity. Qed.
